@@ -575,6 +575,13 @@ func newEmitter(cap int, gen bool) *asm.Emitter {
 }
 
 func (x *emitExec) run(sc scenarioT) {
+	// a panic raised by one of the emitter's public ACCESSORS (Bytes, Len, PC, listings ...) while the harness observes it
+	// -- calls of emitting methods are guarded separately -- is itself an observation; the scenario ends there
+	defer func() {
+		if r := recover(); r != nil {
+			x.emit(map[string]interface{}{"k": "crash", "id": 0, "text": fmt.Sprint(r)})
+		}
+	}()
 	x.ems = map[int]*asm.Emitter{0: newEmitter(sc.Cap, sc.Gen)}
 	x.emit(map[string]interface{}{"k": "new", "id": 0, "cap": sc.Cap, "gen": sc.Gen})
 	if sc.Dry {
